@@ -38,16 +38,17 @@ def _keys(model, pairs):
 # every (event, program counter) pair the models accept; the evidence lists the ones no real trace exercised
 ALL_TRANSITIONS = _keys("Eventual", {
     "call": ["idle"],
-    "ret": ["setOkDone", "setErrDone", "bigRej", "rejected", "woken", "waitDone", "testDone0", "testDone1", "resetDone"],
-    "acq0": ["setCalled", "waitCalled", "testCalled", "resetCalled", "waiting", "woken"],
-    "acq1": ["setCalled", "waitCalled", "testCalled", "resetCalled", "waiting", "woken"],
+    "ret": ["setOkDone", "setErrDone", "bigRej", "rejected", "woken", "waitDone", "testDone0", "testDone1", "resetDone",
+            "freeCS"],
+    "acq0": ["setCalled", "waitCalled", "testCalled", "resetCalled", "freeCalled", "waiting", "woken"],
+    "acq1": ["setCalled", "waitCalled", "testCalled", "resetCalled", "freeCalled", "waiting", "woken"],
     "enq": ["waitCS"], "wake": ["setOkCS"],
     "rel": ["setOkCS", "setErrCS", "waitEnq", "reW", "reR", "passCS", "testCS0", "testCS1", "resetCS"]}) | _keys("Future", {
     "call": ["idle"],
-    "ret": ["setDone", "setErrDone", "rejected", "woken", "waitDone", "testDone0", "testDone1", "resetDone"],
-    "acq0": ["setCalled", "waitCalled", "resetCalled", "waiting", "woken"],
-    "acq1": ["setCalled", "waitCalled", "resetCalled", "waiting", "woken"],
-    "ldCnt": ["setCS", "waitLdCS"], "cb": ["setCbCS"], "stCnt": ["setStCS", "resetCS"], "enq": ["waitCS"],
+    "ret": ["setDone", "setErrDone", "rejected", "woken", "waitDone", "testDone0", "testDone1", "resetDone", "freeCS"],
+    "acq0": ["setCalled", "waitCalled", "resetCalled", "freeCalled", "waiting", "woken"],
+    "acq1": ["setCalled", "waitCalled", "resetCalled", "freeCalled", "waiting", "woken"],
+    "ldCnt": ["setCS", "waitLdCS"], "cbBegin": ["setCbCS"], "cb": ["setCbRun"], "stCnt": ["setStCS", "resetCS"], "enq": ["waitCS"],
     "wake": ["setBcCS"], "tload": ["testCalled"],
     "rel": ["setBcCS", "setRelCS", "setErrCS", "waitEnq", "reW", "reR", "passCS", "resetStCS"]}) | {"obsLock", "obs", "obsCnt", "arr"}
 # a non-ULT waiter re-takes the lock inside its wait loop only after a futex wake-up that was not meant for it; these
